@@ -538,9 +538,12 @@ func (fr *frame) fpRound(exact string, st *State, reach string) string {
 	if fr.pure {
 		return exact
 	}
-	d := u.declare("fpd", "Real")
-	u.assume("true", fmt.Sprintf("(and (<= (- (/ 1.0 9007199254740992.0)) %s) (<= %s (/ 1.0 9007199254740992.0)))", d, d))
-	return u.define("fp", "Real", fmt.Sprintf("(* %s (+ 1.0 %s))", exact, d))
+	// r = exact + e with |e| <= |exact| * 2^-53 : linear in (exact, e), unlike exact*(1+d)
+	x := u.define("fpx", "Real", exact)
+	e := u.declare("fpe", "Real")
+	ax := fmt.Sprintf("(ite (>= %s 0.0) %s (- %s))", x, x, x)
+	u.assume("true", fmt.Sprintf("(and (<= (- (/ %s 9007199254740992.0)) %s) (<= %s (/ %s 9007199254740992.0)))", ax, e, e, ax))
+	return u.define("fp", "Real", fmt.Sprintf("(+ %s %s)", x, e))
 }
 
 func (fr *frame) ptrEq(xv ssa.Value, a *Val, yv ssa.Value, b *Val, st *State) string {
